@@ -22,6 +22,11 @@ func VerifC12Context() context.Context {
 // VerifC12NewConfigurator builds the production Configurator (NewConfigurator, production
 // templates of repoDir) over the given Manager.  Reloads start disabled, as in production.
 func VerifC12NewConfigurator(repoDir string, mgr nginx.Manager, plus, dynWeights bool) (*Configurator, error) {
+	return VerifC12NewConfiguratorSSL(repoDir, mgr, plus, dynWeights, false)
+}
+
+// VerifC12NewConfiguratorSSL is VerifC12NewConfigurator with -ssl-dynamic-reload chosen.
+func VerifC12NewConfiguratorSSL(repoDir string, mgr nginx.Manager, plus, dynWeights, dynSSL bool) (*Configurator, error) {
 	d := path.Join(repoDir, "internal", "configs")
 	main, ing, vs, ts := "nginx.tmpl", "nginx.ingress.tmpl", "nginx.virtualserver.tmpl", "nginx.transportserver.tmpl"
 	if plus {
@@ -44,17 +49,22 @@ func VerifC12NewConfigurator(repoDir string, mgr nginx.Manager, plus, dynWeights
 		NginxStatusPort:            8080,
 		TLSPassthrough:             true,
 		DynamicWeightChangesReload: dynWeights,
+		DynamicSSLReload:           dynSSL,
+		StaticSSLPath:              mgr.GetSecretsDir(),
+		DefaultHTTPListenerPort:    80,
+		DefaultHTTPSListenerPort:   443,
 		NginxVersion:               nginx.NewVersion("nginx version: nginx/1.25.3 (nginx-plus-r31)"),
 	}
 	cnf := NewConfigurator(ConfiguratorParams{
-		NginxManager:       mgr,
-		StaticCfgParams:    static,
-		Config:             NewDefaultConfigParams(ctx, plus),
-		MGMTCfgParams:      NewDefaultMGMTConfigParams(ctx),
-		TemplateExecutor:   te,
-		TemplateExecutorV2: te2,
-		IsPlus:             plus,
-		NginxVersion:       static.NginxVersion,
+		NginxManager:              mgr,
+		StaticCfgParams:           static,
+		Config:                    NewDefaultConfigParams(ctx, plus),
+		MGMTCfgParams:             NewDefaultMGMTConfigParams(ctx),
+		TemplateExecutor:          te,
+		TemplateExecutorV2:        te2,
+		IsPlus:                    plus,
+		IsDynamicSSLReloadEnabled: dynSSL,
+		NginxVersion:              static.NginxVersion,
 	})
 	return cnf, nil
 }
